@@ -11,6 +11,11 @@ package htlcswitch
 // locking them in (DeleteCircuits + AckPacket, the call sequence of
 // channelLink.ackDownStreamPackets) or only half of it, links flapping, and the
 // switch being stopped and started again on the same DB at arbitrary points.
+// There are two incoming channels; either can go on chain and become fully
+// closed while the switch runs (RemoveLink is all the running switch sees).
+// Every operation runs under a capture of the DB wrapper: a consistent image
+// of the DB is taken right after every committed write transaction, and a
+// fresh switch is booted from every image (c07swcrash_test.go).
 //
 // Everything goes through the switch's own API (ForwardPackets,
 // ProcessContractResolution, AddLink/RemoveLink, CircuitModifier, the mailbox
@@ -56,6 +61,7 @@ package htlcswitch
 
 import (
 	"crypto/sha256"
+	"errors"
 	"fmt"
 	"os"
 	"path/filepath"
@@ -72,6 +78,7 @@ import (
 	"github.com/lightningnetwork/lnd/chanstate"
 	"github.com/lightningnetwork/lnd/clock"
 	"github.com/lightningnetwork/lnd/contractcourt"
+	"github.com/lightningnetwork/lnd/htlcswitch/hop"
 	"github.com/lightningnetwork/lnd/kvdb"
 	"github.com/lightningnetwork/lnd/lntest/mock"
 	"github.com/lightningnetwork/lnd/lnwire"
@@ -101,6 +108,7 @@ func (r *verifC07swResp) String() string {
 type verifC07swCirc struct {
 	n    int
 	in   CircuitKey
+	inCh int // incoming channel index
 	ch   int // outgoing channel index
 	pre  [32]byte
 	hash [32]byte
@@ -130,6 +138,7 @@ type verifC07swCirc struct {
 	res       *verifC07swResp
 	resKey    CircuitKey // outgoing key the resolution message names
 	resDups   int
+	resAcked  bool // ProcessContractResolution returned nil (guarded by x.mu)
 	localFail bool
 	everComm  bool // the outgoing HTLC reached a commitment at some point
 
@@ -155,6 +164,17 @@ type verifC07swOut struct {
 	opened []*verifC07swCirc // keystone written, commitment not yet signed
 }
 
+// verifC07swIn is one incoming channel.
+type verifC07swIn struct {
+	scid   lnwire.ShortChannelID
+	cid    lnwire.ChannelID
+	pub    [33]byte
+	status int // 0 open, 1 on chain (close pending), 2 fully closed
+	on     bool
+	link   *verifC07swLink
+	epoch  int
+}
+
 // verifC07swLink is lnd's mockChannelLink plus observation of the adds the
 // switch hands over, a per-channel peer identity (so that non-strict
 // forwarding has exactly one candidate) and the TrimOpenCircuits call a real
@@ -162,14 +182,68 @@ type verifC07swOut struct {
 type verifC07swLink struct {
 	*mockChannelLink
 	x      *verifC07swRun
-	ch     int // -1: incoming channel
+	fork   *verifC07swFork // nil: the link belongs to the case's main switch
+	ch     int             // -1-i: incoming channel i
 	pub    [33]byte
 	trimAt *uint64
 }
 
 func (l *verifC07swLink) handleSwitchPacket(pkt *htlcPacket) error {
+	if l.fork != nil {
+		l.fork.onHanded(pkt)
+		return l.mockChannelLink.handleSwitchPacket(pkt)
+	}
 	l.x.onHanded(l.ch, pkt)
-	return l.mockChannelLink.handleSwitchPacket(pkt)
+	err := l.mockChannelLink.handleSwitchPacket(pkt)
+	// the forwarder goroutine can be parked right after a hand-over.
+	l.x.gate.pass(pkt.inKey())
+	return err
+}
+
+// verifC07swGate parks the switch's forwarder goroutine (a busy switch):
+// either right after the add of a chosen incoming key was handed to its
+// outgoing link, or inside a dummy add that never touches the circuit map.
+type verifC07swGate struct {
+	mu      sync.Mutex
+	armed   bool
+	key     CircuitKey
+	entered chan struct{}
+	release chan struct{}
+}
+
+func (g *verifC07swGate) arm(k CircuitKey) {
+	g.mu.Lock()
+	g.armed, g.key = true, k
+	g.entered, g.release = make(chan struct{}), make(chan struct{})
+	g.mu.Unlock()
+}
+
+func (g *verifC07swGate) pass(k CircuitKey) {
+	g.mu.Lock()
+	if !g.armed || g.key != k {
+		g.mu.Unlock()
+		return
+	}
+	g.armed = false
+	entered, release := g.entered, g.release
+	g.mu.Unlock()
+	close(entered)
+	<-release
+}
+
+// verifC07swParkObf is the obfuscator of the dummy add: the switch fails the
+// dummy (unknown outgoing channel) and asks for the failure to be encrypted.
+type verifC07swParkObf struct {
+	hop.ErrorEncrypter
+	g *verifC07swGate
+	k CircuitKey
+}
+
+func (o *verifC07swParkObf) EncryptFirstHop(lnwire.FailureMessage) (
+	lnwire.OpaqueReason, error) {
+
+	o.g.pass(o.k)
+	return nil, fmt.Errorf("verifC07sw: dummy add")
 }
 
 func (l *verifC07swLink) PeerPubKey() [33]byte { return l.pub }
@@ -199,16 +273,11 @@ type verifC07swRun struct {
 	dir string
 
 	dbName string
-	db     *verifC07DB
+	db     *verifC07swDB
 	s      *Switch
 
-	life    int
-	inScid  lnwire.ShortChannelID
-	inCid   lnwire.ChannelID
-	inPub   [33]byte
-	inLink  *verifC07swLink
-	inOn    bool
-	inEpoch int
+	life int
+	ins  [2]*verifC07swIn
 
 	outs  [2]*verifC07swOut
 	circs []*verifC07swCirc
@@ -222,7 +291,16 @@ type verifC07swRun struct {
 
 	noLock      bool
 	restartW    int
+	inCloseW    int
 	midMismatch bool
+
+	gate verifC07swGate
+
+	// crash-point forks (c07swcrash_test.go).
+	cur       *verifC07swCapture
+	fr        *verifRng
+	crashMode int
+	nImg      int
 }
 
 func (x *verifC07swRun) log(format string, a ...any) {
@@ -292,15 +370,29 @@ func (x *verifC07swRun) committed(c *verifC07swCirc) bool {
 // --- switch construction ----------------------------------------------------
 
 func (x *verifC07swRun) newSwitch() (*Switch, error) {
+	return x.newSwitchOn(x.db)
+}
+
+func (x *verifC07swRun) newSwitchOn(db kvdb.Backend) (*Switch, error) {
 	noChans := func() ([]*chanstate.OpenChannel, error) { return nil, nil }
 	cfg := Config{
-		DB:                   x.db,
+		DB:                   db,
 		FetchAllOpenChannels: noChans,
 		FetchAllChannels:     noChans,
 		FetchClosedChannels: func(pendingOnly bool) (
 			[]*chanstate.ChannelCloseSummary, error) {
 
 			var res []*chanstate.ChannelCloseSummary
+			for _, in := range x.ins {
+				if in.status == 0 || (pendingOnly && in.status != 1) {
+					continue
+				}
+				res = append(res, &chanstate.ChannelCloseSummary{
+					ShortChanID: in.scid,
+					CloseType:   chanstate.RemoteForceClose,
+					IsPending:   in.status == 1,
+				})
+			}
 			for _, o := range x.outs {
 				if o.status == 0 || (pendingOnly && o.status != 1) {
 					continue
@@ -346,11 +438,18 @@ func (x *verifC07swRun) newSwitch() (*Switch, error) {
 }
 
 func (x *verifC07swRun) newLink(ch int) *verifC07swLink {
-	l := &verifC07swLink{x: x, ch: ch}
+	return x.newLinkOn(x.s, nil, ch)
+}
+
+func (x *verifC07swRun) newLinkOn(s *Switch, f *verifC07swFork,
+	ch int) *verifC07swLink {
+
+	l := &verifC07swLink{x: x, fork: f, ch: ch}
 	if ch < 0 {
-		l.pub = x.inPub
+		in := x.ins[-1-ch]
+		l.pub = in.pub
 		l.mockChannelLink = newMockChannelLink(
-			x.s, x.inCid, x.inScid, lnwire.ShortChannelID{}, nil,
+			s, in.cid, in.scid, lnwire.ShortChannelID{}, nil,
 			true, false, false, false,
 		)
 		return l
@@ -360,7 +459,7 @@ func (x *verifC07swRun) newLink(ch int) *verifC07swLink {
 	at := o.signed
 	l.trimAt = &at
 	l.mockChannelLink = newMockChannelLink(
-		x.s, o.cid, o.scid, lnwire.ShortChannelID{}, nil,
+		s, o.cid, o.scid, lnwire.ShortChannelID{}, nil,
 		true, false, false, false,
 	)
 	return l
@@ -368,9 +467,11 @@ func (x *verifC07swRun) newLink(ch int) *verifC07swLink {
 
 // barrier waits until the switch's forwarder goroutine has completely
 // processed everything it received before.
-func (x *verifC07swRun) barrier() {
+func (x *verifC07swRun) barrier() { x.barrierOn(x.s) }
+
+func (x *verifC07swRun) barrierOn(s *Switch) {
 	errCh := make(chan error, 1)
-	if err := x.s.routeAsync(&htlcPacket{}, errCh, nil); err != nil {
+	if err := s.routeAsync(&htlcPacket{}, errCh, nil); err != nil {
 		x.t.Fatalf("verifC07sw: barrier: %v", err)
 	}
 	select {
@@ -482,6 +583,9 @@ func (x *verifC07swRun) compare(ctx string, verdict bool) {
 		switch {
 		case c.exists && got == nil:
 			key := "durable-circuit-missing"
+			if x.ins[c.inCh].status == 1 {
+				key = "pending-close-incoming-channel-circuit-purged"
+			}
 			if c.out != nil && x.outs[c.ch].status == 2 {
 				key = "closed-channel-circuit-purged-unexpectedly"
 				if x.store[x.outKey(c)] == c {
@@ -497,6 +601,8 @@ func (x *verifC07swRun) compare(ctx string, verdict bool) {
 			key := "unknown-circuit-present"
 			if c.inDone {
 				key = "deleted-circuit-present"
+			} else if x.ins[c.inCh].status == 2 {
+				key = "closed-incoming-channel-circuit-not-purged"
 			} else if c.forwarded {
 				key = "closed-channel-circuit-not-purged"
 			}
@@ -548,12 +654,12 @@ func (x *verifC07swRun) compare(ctx string, verdict bool) {
 
 // --- operations ---------------------------------------------------------------
 
-func (x *verifC07swRun) opFwd(c *verifC07swCirc) {
-	o := x.outs[c.ch]
-	pkt := &htlcPacket{
-		incomingChanID:  x.inScid,
+// addPkt builds the add the incoming link forwards for circuit c.
+func (x *verifC07swRun) addPkt(c *verifC07swCirc) *htlcPacket {
+	return &htlcPacket{
+		incomingChanID:  c.in.ChanID,
 		incomingHTLCID:  c.in.HtlcID,
-		outgoingChanID:  o.scid,
+		outgoingChanID:  x.outs[c.ch].scid,
 		obfuscator:      NewMockObfuscator(),
 		incomingAmount:  1100000,
 		amount:          1000000,
@@ -566,40 +672,273 @@ func (x *verifC07swRun) opFwd(c *verifC07swCirc) {
 			Expiry:      testStartingHeight + 100,
 		},
 	}
-	dup := c.forwarded
-	c.forwarded, c.fwdLife, c.fwdEpoch = true, x.life, x.inEpoch
-	err := x.s.ForwardPackets(nil, pkt)
-	x.barrier()
+}
 
-	var what string
+// modelFwd is the model's reaction to the add of circuit c entering the
+// switch.
+func (x *verifC07swRun) modelFwd(c *verifC07swCirc) string {
+	o := x.outs[c.ch]
 	switch {
 	case !c.exists:
 		c.exists, c.lfd = true, false
 		if o.online {
 			c.inOutMbox, c.outGot = true, false
-			what = "handed"
-		} else {
-			c.localFail = true
-			x.mboxPut(c, &verifC07swResp{Src: "local"})
-			what = "failed(no-link)"
+			return "handed"
 		}
+		c.localFail = true
+		x.mboxPut(c, &verifC07swResp{Src: "local"})
+		return "failed(no-link)"
 	case c.out != nil:
-		what = "dropped(keystone)"
 		x.feat["dup-dropped-open"] = true
 		x.vc.Count("sw_dup_dropped", 1)
+		return "dropped(keystone)"
 	case !c.lfd:
-		what = "dropped(in-memory)"
 		x.feat["dup-dropped-mem"] = true
 		x.vc.Count("sw_dup_dropped", 1)
+		return "dropped(in-memory)"
 	default:
 		c.localFail = true
 		x.mboxPut(c, &verifC07swResp{Src: "local-dup"})
-		what = "failed-back(half-open after restart)"
 		x.feat["dup-failed-back"] = true
+		return "failed-back(half-open after restart)"
 	}
+}
+
+func (x *verifC07swRun) opFwd(c *verifC07swCirc) {
+	pkt := x.addPkt(c)
+	dup := c.forwarded
+	c.forwarded, c.fwdLife, c.fwdEpoch = true, x.life, x.ins[c.inCh].epoch
+	err := x.s.ForwardPackets(nil, pkt)
+	x.barrier()
+	what := x.modelFwd(c)
 	x.log("fwd(c%d %s->ch%d dup=%v) err=%v -> model %s", c.n,
 		verifC07KeyStr(c.in), c.ch, dup, err, what)
 	x.vc.Count("sw_forwards", 1)
+	x.checkHanded()
+}
+
+// fwdable: the incoming link may forward (or re-forward) the add of c now.
+func (x *verifC07swRun) fwdable(c *verifC07swCirc) bool {
+	return !c.inDone && !(c.forwarded && c.fwdLife == x.life &&
+		c.fwdEpoch == x.ins[c.inCh].epoch)
+}
+
+// opFwdBatch: the incoming link forwards all the adds it may forward in one
+// ForwardPackets call (one CommitCircuits transaction), as a link does for
+// the adds of one forwarding package.
+func (x *verifC07swRun) opFwdBatch(i int) {
+	var pkts []*htlcPacket
+	var cs []*verifC07swCirc
+	for _, c := range x.circs {
+		if c.inCh != i || !x.fwdable(c) {
+			continue
+		}
+		pkts = append(pkts, x.addPkt(c))
+		cs = append(cs, c)
+		c.forwarded, c.fwdLife, c.fwdEpoch = true, x.life, x.ins[i].epoch
+	}
+	err := x.s.ForwardPackets(nil, pkts...)
+	x.barrier()
+	var what []string
+	for _, c := range cs {
+		what = append(what, fmt.Sprintf("c%d>ch%d:%s", c.n, c.ch, x.modelFwd(c)))
+	}
+	x.log("fwdBatch(in%d) err=%v -> model %v", i, err, what)
+	x.vc.Count("sw_forwards", int64(len(cs)))
+	x.vc.Count("sw_batch_forwards", 1)
+	x.feat["batch-forward"] = true
+	x.checkHanded()
+}
+
+// opFwdBatchQuit: the incoming link is stopped (its quit channel closes) while
+// ForwardPackets hands a batch of adds - fresh ones and replays - over to a
+// busy switch: the first j fresh adds are taken by the switch, the others are
+// not (ForwardPackets returns ErrLinkShuttingDown). The link replays the whole
+// batch in its next epoch.
+func (x *verifC07swRun) opFwdBatchQuit(i int) {
+	in := x.ins[i]
+	var pkts []*htlcPacket
+	var cs, adds []*verifC07swCirc
+	for _, c := range x.circs {
+		if c.inCh != i || !x.fwdable(c) {
+			continue
+		}
+		pkts = append(pkts, x.addPkt(c))
+		cs = append(cs, c)
+		if !c.exists {
+			adds = append(adds, c)
+		}
+	}
+	// j: the number of fresh adds the switch takes. The forwarder is parked
+	// right after the hand-over of add j-1 (its outgoing link has to be
+	// there for that), or before anything with a dummy add.
+	cand := []int{0}
+	for p := 0; p+1 < len(adds); p++ {
+		if x.outs[adds[p].ch].online {
+			cand = append(cand, p+1)
+		}
+	}
+	j := cand[x.r.Intn(len(cand))]
+	parkKey := CircuitKey{ChanID: lnwire.NewShortChanIDFromInt(uint64(180) << 40), HtlcID: 7}
+	if j > 0 {
+		parkKey = adds[j-1].in
+	}
+	x.gate.arm(parkKey)
+	entered, release := x.gate.entered, x.gate.release
+	waitFor := func(what string, ch <-chan struct{}) {
+		select {
+		case <-ch:
+		case <-time.After(60 * time.Second):
+			x.t.Fatalf("verifC07sw: fwdBatchQuit: timed out waiting for %s", what)
+		}
+	}
+	dummyErr := make(chan error, 1)
+	if j == 0 {
+		dummy := &htlcPacket{
+			incomingChanID: parkKey.ChanID,
+			incomingHTLCID: parkKey.HtlcID,
+			outgoingChanID: lnwire.NewShortChanIDFromInt(uint64(181) << 40),
+			obfuscator: &verifC07swParkObf{
+				ErrorEncrypter: NewMockObfuscator(), g: &x.gate, k: parkKey,
+			},
+			htlc: &lnwire.UpdateAddHTLC{},
+		}
+		if err := x.s.routeAsync(dummy, dummyErr, nil); err != nil {
+			x.t.Fatalf("verifC07sw: fwdBatchQuit: dummy: %v", err)
+		}
+		waitFor("the forwarder to park", entered)
+	}
+	for _, c := range cs {
+		c.forwarded, c.fwdLife, c.fwdEpoch = true, x.life, in.epoch
+	}
+	quit := make(chan struct{})
+	fwdErr := make(chan error, 1)
+	go func() { fwdErr <- x.s.ForwardPackets(quit, pkts...) }()
+	if j == 0 {
+		// Poll on observable state: the circuit of the first fresh add is
+		// in the circuit map, ForwardPackets is at (or on its way to) the
+		// hand-over, which cannot proceed while the forwarder is parked.
+		deadline := time.Now().Add(60 * time.Second)
+		for x.s.circuits.LookupCircuit(adds[0].in) == nil {
+			if time.Now().After(deadline) {
+				x.t.Fatalf("verifC07sw: fwdBatchQuit: circuit never committed")
+			}
+			runtime.Gosched()
+			time.Sleep(20 * time.Microsecond)
+		}
+	} else {
+		waitFor("the forwarder to park", entered)
+	}
+	close(quit)
+	var err error
+	select {
+	case err = <-fwdErr:
+	case <-time.After(60 * time.Second):
+		x.t.Fatalf("verifC07sw: fwdBatchQuit: ForwardPackets did not return")
+	}
+	close(release)
+	if j == 0 {
+		<-dummyErr
+	}
+	x.barrier()
+
+	// Model: adds[:j] entered the switch; the circuits of adds[j:] were
+	// committed and removed again (a switch booted in between knows them
+	// half-open); replays of known circuits are dropped, a half-open one
+	// loaded from disk is not failed back by this interrupted call.
+	if x.cur != nil {
+		alt := append([]verifC07swSnap(nil), x.cur.pre...)
+		for _, c := range adds[j:] {
+			alt[c.n].exists = true
+		}
+		x.cur.alt = alt
+	}
+	var what []string
+	nDup := 0
+	for _, c := range cs {
+		isAdd, pos := false, 0
+		for p, a := range adds {
+			if a == c {
+				isAdd, pos = true, p
+			}
+		}
+		switch {
+		case isAdd && pos < j:
+			what = append(what, fmt.Sprintf("c%d>ch%d:%s", c.n, c.ch, x.modelFwd(c)))
+		case isAdd:
+			what = append(what, fmt.Sprintf("c%d>ch%d:not-taken", c.n, c.ch))
+		case c.out == nil && c.lfd:
+			nDup++
+			what = append(what, fmt.Sprintf("c%d:fail-back-skipped", c.n))
+		default:
+			nDup++
+			what = append(what, fmt.Sprintf("c%d:%s", c.n, x.modelFwd(c)))
+		}
+	}
+	x.log("fwdBatchQuit(in%d taken=%d of %d fresh, %d replays) err=%v -> model %v",
+		i, j, len(adds), nDup, err, what)
+	if !errors.Is(err, ErrLinkShuttingDown) {
+		x.abort("sw_interrupted_batch_not_interrupted", fmt.Sprintf("err=%v", err))
+		return
+	}
+	x.vc.Count("sw_forwards", int64(len(cs)))
+	x.vc.Count("sw_interrupted_batches", 1)
+	x.vc.Count("sw_interrupted_batch_adds_not_taken", int64(len(adds)-j))
+	if nDup > 0 {
+		x.vc.Count("sw_interrupted_batches_with_replays", 1)
+		x.feat["interrupted-batch-with-replays"] = true
+	}
+	if j > 0 {
+		x.feat["interrupted-batch-partly-taken"] = true
+	}
+	x.feat["interrupted-batch"] = true
+	x.checkHanded()
+	// the link is gone.
+	x.opInDown(i)
+}
+
+// probeReplay runs after the switch's circuit map was seen to differ from the
+// model in mid-life (the model cannot be trusted from here on): all links
+// flap and the incoming links replay their un-acked adds once more. Only the
+// model-free count of hand-overs per incoming HTLC is judged.
+func (x *verifC07swRun) probeReplay() {
+	x.log("probe: links flap, the incoming links replay their un-acked adds")
+	for ch, o := range x.outs {
+		if o.status != 0 || o.online {
+			continue
+		}
+		l := x.newLink(ch)
+		if err := x.s.AddLink(l); err != nil {
+			x.t.Fatalf("verifC07sw: probe AddLink(out %d): %v", ch, err)
+		}
+		o.online, o.link = true, l
+	}
+	for i, in := range x.ins {
+		if in.status != 0 {
+			continue
+		}
+		if in.on {
+			x.s.RemoveLink(in.cid)
+			x.barrier()
+		}
+		l := x.newLink(-1 - i)
+		if err := x.s.AddLink(l); err != nil {
+			x.t.Fatalf("verifC07sw: probe AddLink(in %d): %v", i, err)
+		}
+		in.on, in.link = true, l
+		in.epoch++
+		var pkts []*htlcPacket
+		for _, c := range x.circs {
+			if c.inCh == i && c.forwarded && !c.inDone {
+				pkts = append(pkts, x.addPkt(c))
+			}
+		}
+		if len(pkts) > 0 {
+			_ = x.s.ForwardPackets(nil, pkts...)
+			x.barrier()
+		}
+	}
+	x.vc.Count("sw_probe_replays", 1)
 	x.checkHanded()
 }
 
@@ -822,6 +1161,9 @@ func (x *verifC07swRun) opRes(c *verifC07swCirc) {
 		x.abort("sw_process_resolution_error", err.Error())
 		return
 	}
+	x.mu.Lock()
+	c.resAcked = true
+	x.mu.Unlock()
 	x.store[k] = c
 	what := x.respond(k, c.res)
 	x.log("res(c%d out=%s %s dup=%v) -> stored, model %s", c.n, verifC07KeyStr(k),
@@ -842,29 +1184,58 @@ func (x *verifC07swRun) opFullyClose(ch int) {
 	x.log("fullyClose(ch%d)", ch)
 }
 
-func (x *verifC07swRun) opInDown() {
-	x.s.RemoveLink(x.inCid)
+func (x *verifC07swRun) opInDown(i int) {
+	in := x.ins[i]
+	x.s.RemoveLink(in.cid)
 	x.barrier()
-	x.inOn, x.inLink = false, nil
-	x.log("inDown")
+	in.on, in.link = false, nil
+	x.log("inDown(in%d)", i)
 }
 
-func (x *verifC07swRun) opInUp() {
-	l := x.newLink(-1)
+func (x *verifC07swRun) opInUp(i int) {
+	in := x.ins[i]
+	l := x.newLink(-1 - i)
 	if err := x.s.AddLink(l); err != nil {
-		x.t.Fatalf("verifC07sw: AddLink(in): %v", err)
+		x.t.Fatalf("verifC07sw: AddLink(in %d): %v", i, err)
 	}
-	x.inOn, x.inLink = true, l
-	x.inEpoch++
+	in.on, in.link = true, l
+	in.epoch++
 	for _, c := range x.circs {
-		c.got = false
+		if c.inCh == i {
+			c.got = false
+		}
 	}
-	x.log("inUp -> epoch %d", x.inEpoch)
+	x.log("inUp(in%d) -> epoch %d", i, in.epoch)
 }
 
-// opInRecv is the observation point of what reaches the incoming channel.
-func (x *verifC07swRun) opInRecv() {
-	pkts := x.drain(x.inLink)
+// opInOnChain: the incoming channel goes on chain. All a running switch sees
+// of that is the link being removed for good; the channel is listed as
+// pending close from now on.
+func (x *verifC07swRun) opInOnChain(i int) {
+	in := x.ins[i]
+	if in.on {
+		x.s.RemoveLink(in.cid)
+		x.barrier()
+	}
+	in.on, in.link = false, nil
+	in.status = 1
+	x.feat["incoming-on-chain"] = true
+	x.log("inOnChain(in%d) -> close pending", i)
+}
+
+// opInFullyClose: the incoming channel is fully closed (FetchClosedChannels
+// reports it without the pending flag from now on).
+func (x *verifC07swRun) opInFullyClose(i int) {
+	x.ins[i].status = 2
+	x.feat["incoming-fully-closed"] = true
+	x.vc.Count("sw_incoming_fully_closed", 1)
+	x.log("inFullyClose(in%d)", i)
+}
+
+// opInRecv is the observation point of what reaches an incoming channel.
+func (x *verifC07swRun) opInRecv(i int) {
+	in := x.ins[i]
+	pkts := x.drain(in.link)
 	seen := map[*verifC07swCirc]bool{}
 	var names []string
 	for _, p := range pkts {
@@ -894,8 +1265,8 @@ func (x *verifC07swRun) opInRecv() {
 		seen[c] = true
 		c.nDeliv++
 		x.vc.Count("sw_responses_delivered", 1)
-		sameEpoch := c.realGot && c.realGotLife == x.life && c.realGotEp == x.inEpoch
-		c.realGot, c.realGotLife, c.realGotEp = true, x.life, x.inEpoch
+		sameEpoch := c.realGot && c.realGotLife == x.life && c.realGotEp == in.epoch
+		c.realGot, c.realGotLife, c.realGotEp = true, x.life, in.epoch
 		switch {
 		case c.ackedDone:
 			x.violate("at_most_one_response", "response-after-lock-in",
@@ -958,14 +1329,14 @@ func (x *verifC07swRun) opInRecv() {
 			// The link's channel already has a response committed:
 			// channelLink.cleanupSpuriousResponse, then the ack.
 			_ = x.s.CircuitModifier().DeleteCircuits(c.in)
-			x.inLink.mailBox.AckPacket(c.in)
+			in.link.mailBox.AckPacket(c.in)
 			c.mbox, c.ackedDone = nil, true
 			x.feat["spurious-redelivery-cleaned"] = true
 		}
 	}
 	// Lower bounds.
 	for _, c := range x.circs {
-		if c.mbox == nil || c.got || seen[c] {
+		if c.inCh != i || c.mbox == nil || c.got || seen[c] {
 			continue
 		}
 		switch {
@@ -992,7 +1363,7 @@ func (x *verifC07swRun) opInRecv() {
 			x.vc.Count("sw_awaiting_resolution_evals", 1)
 		}
 	}
-	x.log("inRecv -> %v", names)
+	x.log("inRecv(in%d) -> %v", i, names)
 }
 
 // opInLock: the incoming link committed the response it received in this
@@ -1010,10 +1381,10 @@ func (x *verifC07swRun) opInLock(c *verifC07swCirc, partial bool) {
 	if partial {
 		x.feat["partial-lock-in"] = true
 		x.log("inLock(c%d) circuit deleted, link stops before the ack", c.n)
-		x.opInDown()
+		x.opInDown(c.inCh)
 		return
 	}
-	x.inLink.mailBox.AckPacket(c.in)
+	x.ins[c.inCh].link.mailBox.AckPacket(c.in)
 	c.mbox, c.ackedDone = nil, true
 	x.vc.Count("sw_lock_ins", 1)
 	x.log("inLock(c%d) circuit deleted, packet acked", c.n)
@@ -1041,15 +1412,37 @@ func (x *verifC07swRun) opRestart(why string) {
 
 	// Model restart image.
 	x.life++
-	x.inOn, x.inLink = false, nil
-	x.inEpoch++
+	for _, in := range x.ins {
+		in.on, in.link = false, nil
+		in.epoch++
+	}
 	for _, o := range x.outs {
 		o.online, o.link = false, nil
 		o.held, o.opened = nil, nil
 		o.next = o.signed
 	}
-	purged, kept := 0, 0
+	purged, kept, purgedIn, keptPending := 0, 0, 0, 0
 	for _, c := range x.circs {
+		if c.exists && x.ins[c.inCh].status == 1 {
+			keptPending++
+		}
+		if c.exists && x.ins[c.inCh].status == 2 {
+			// "circuits of fully closed channels are purged". The
+			// exception ("still awaiting delivery of an on-chain
+			// resolution") cannot be read onto a circuit whose incoming
+			// channel is gone: there is nowhere to deliver to. The
+			// combination is not judged (assumptions).
+			if c.out != nil && x.store[x.outKey(c)] == c &&
+				x.s.circuits.LookupCircuit(c.in) != nil {
+
+				x.abort("sw_closed_incoming_circuit_kept_for_resolution",
+					fmt.Sprintf("circuit %d", c.n))
+				return
+			}
+			c.exists, c.out = false, nil
+			purgedIn++
+			continue
+		}
 		if c.exists && c.out != nil && x.outs[c.ch].status == 2 {
 			if x.store[x.outKey(c)] == c {
 				kept++
@@ -1102,12 +1495,21 @@ func (x *verifC07swRun) opRestart(why string) {
 		x.feat["kept-by-resolution"] = true
 		x.vc.Count("sw_kept_by_resolution", int64(kept))
 	}
+	if purgedIn > 0 {
+		x.feat["purged-incoming-closed"] = true
+		x.vc.Count("sw_purged_incoming_closed_circuits", int64(purgedIn))
+	}
+	if keptPending > 0 {
+		x.feat["kept-incoming-close-pending"] = true
+		x.vc.Count("sw_kept_incoming_close_pending", int64(keptPending))
+	}
 	if refwd > 0 {
 		x.vc.Count("sw_resolutions_due_after_restart", int64(refwd))
 	}
 	x.vc.Count("sw_restarts", 1)
-	x.log("restart(%s) -> lifetime %d: model purged=%d kept-by-resolution=%d "+
-		"resolutions re-forwarded=%d", why, x.life, purged, kept, refwd)
+	x.log("restart(%s) -> lifetime %d: model purged=%d purged(incoming closed)=%d "+
+		"kept-by-resolution=%d resolutions re-forwarded=%d", why, x.life, purged,
+		purgedIn, kept, refwd)
 	x.compare("after restart "+why, true)
 }
 
@@ -1126,38 +1528,74 @@ func (x *verifC07swRun) enabled() []verifC07swOp {
 			ops = append(ops, verifC07swOp{w, name, f})
 		}
 	}
-	if x.inOn {
+	for i, in := range x.ins {
+		i, in := i, in
+		nEx := 0
 		for _, c := range x.circs {
-			c := c
-			if c.inDone || (c.forwarded && c.fwdLife == x.life && c.fwdEpoch == x.inEpoch) {
-				continue
-			}
-			w := 12
-			if c.forwarded {
-				w = 6
-			}
-			add(w, "fwd", func() { x.opFwd(c) })
-		}
-		pend := 0
-		for _, c := range x.circs {
-			if c.mbox != nil && !c.got {
-				pend++
+			if c.inCh == i && c.exists {
+				nEx++
 			}
 		}
-		add(2+10*pend, "inRecv", func() { x.opInRecv() })
-		for _, c := range x.circs {
-			c := c
-			if c.mbox == nil || !c.got || c.inDone {
-				continue
+		switch {
+		case in.status == 0 && in.on:
+			nFwd := 0
+			for _, c := range x.circs {
+				c := c
+				if c.inCh != i || !x.fwdable(c) {
+					continue
+				}
+				nFwd++
+				w := 12
+				if c.forwarded {
+					w = 6
+				}
+				add(w, "fwd", func() { x.opFwd(c) })
 			}
-			if !x.noLock {
-				add(6, "inLock", func() { x.opInLock(c, false) })
+			if nFwd >= 2 {
+				add(8, "fwdBatch", func() { x.opFwdBatch(i) })
 			}
-			add(1, "inLockPartial", func() { x.opInLock(c, true) })
+			nFresh := 0
+			for _, c := range x.circs {
+				if c.inCh == i && x.fwdable(c) && !c.exists {
+					nFresh++
+				}
+			}
+			if nFresh >= 1 {
+				w := 3
+				if nFwd > nFresh {
+					w = 8 // replays of known circuits in the batch
+				}
+				add(w, "fwdBatchQuit", func() { x.opFwdBatchQuit(i) })
+			}
+			pend := 0
+			for _, c := range x.circs {
+				if c.inCh == i && c.mbox != nil && !c.got {
+					pend++
+				}
+			}
+			add(2+10*pend, "inRecv", func() { x.opInRecv(i) })
+			for _, c := range x.circs {
+				c := c
+				if c.inCh != i || c.mbox == nil || !c.got || c.inDone {
+					continue
+				}
+				if !x.noLock {
+					add(6, "inLock", func() { x.opInLock(c, false) })
+				}
+				add(1, "inLockPartial", func() { x.opInLock(c, true) })
+			}
+			add(2, "inDown", func() { x.opInDown(i) })
+			if nEx > 0 {
+				add(x.inCloseW, "inOnChain", func() { x.opInOnChain(i) })
+			}
+		case in.status == 0:
+			add(10, "inUp", func() { x.opInUp(i) })
+			if nEx > 0 {
+				add(x.inCloseW, "inOnChain", func() { x.opInOnChain(i) })
+			}
+		case in.status == 1:
+			add(3, "inFullyClose", func() { x.opInFullyClose(i) })
 		}
-		add(2, "inDown", func() { x.opInDown() })
-	} else {
-		add(10, "inUp", func() { x.opInUp() })
 	}
 	for ch, o := range x.outs {
 		ch, o := ch, o
@@ -1228,7 +1666,9 @@ func (x *verifC07swRun) enabled() []verifC07swOp {
 	return ops
 }
 
-func (x *verifC07swRun) step() {
+// step runs one PRNG-chosen operation under a capture of the DB wrapper and
+// returns the capture (already stopped).
+func (x *verifC07swRun) step() *verifC07swCapture {
 	ops := x.enabled()
 	tot := 0
 	for _, o := range ops {
@@ -1237,29 +1677,35 @@ func (x *verifC07swRun) step() {
 	n := x.r.Intn(tot)
 	for _, o := range ops {
 		if n < o.w {
+			cp := x.capBegin(o.name)
 			o.run()
+			x.capEnd(cp)
 			x.vc.Count("sw_op_"+o.name, 1)
-			return
+			return cp
 		}
 		n -= o.w
 	}
+	return nil
 }
 
 func (x *verifC07swRun) runCase(i int) {
 	vc, r := x.vc, x.r
 	nCirc := 1 + r.Intn(3)
-	nOps := 25 + r.Intn(50)
+	nOps := 30 + r.Intn(60)
 	x.noLock = r.Chance(1, 4)
 	x.restartW = []int{1, 2, 4}[r.Intn(3)]
+	x.inCloseW = []int{0, 0, 1, 1}[r.Intn(4)]
+	x.crashMode = []int{0, 1, 1, 1}[r.Intn(4)]
+	x.fr = r.Fork("crash")
 	vc.Case(i, map[string]any{"circuits": nCirc, "ops": nOps, "nolock": x.noLock,
-		"restartw": x.restartW})
+		"restartw": x.restartW, "inclosew": x.inCloseW, "crash": x.crashMode})
 
 	x.dbName = fmt.Sprintf("sw-case-%d.db", i)
 	bk, err := verifC07OpenBolt(x.dir, x.dbName)
 	if err != nil {
 		x.t.Fatalf("verifC07sw: open case db: %v", err)
 	}
-	x.db = &verifC07DB{inner: bk}
+	x.db = &verifC07swDB{verifC07DB: &verifC07DB{inner: bk}, x: x}
 	defer func() {
 		if x.s != nil {
 			_ = x.s.Stop()
@@ -1272,12 +1718,15 @@ func (x *verifC07swRun) runCase(i int) {
 	x.trace = x.trace[:0]
 	x.feat = map[string]bool{}
 	x.bad, x.aborted, x.midMismatch = false, false, false
-	x.life, x.inEpoch = 1, 0
-	x.inOn, x.inLink = false, nil
+	x.life = 1
 	x.store = map[CircuitKey]*verifC07swCirc{}
-	x.inScid = lnwire.NewShortChanIDFromInt(uint64(200)<<40 | uint64(1)<<16)
-	x.inCid = lnwire.ChannelID{0xa1}
-	x.inPub = [33]byte{2, 0xa1}
+	for i := range x.ins {
+		x.ins[i] = &verifC07swIn{
+			scid: lnwire.NewShortChanIDFromInt(uint64(190+i)<<40 | uint64(i+8)<<16),
+			cid:  lnwire.ChannelID{0xa1 + byte(i)},
+			pub:  [33]byte{2, 0xa1 + byte(i)},
+		}
+	}
 	for ch := range x.outs {
 		x.outs[ch] = &verifC07swOut{
 			scid: lnwire.NewShortChanIDFromInt(uint64(201+ch)<<40 | uint64(ch+2)<<16),
@@ -1287,8 +1736,8 @@ func (x *verifC07swRun) runCase(i int) {
 	}
 	x.circs = nil
 	for n := 0; n < nCirc; n++ {
-		c := &verifC07swCirc{n: n, ch: r.Intn(2)}
-		c.in = CircuitKey{ChanID: x.inScid, HtlcID: uint64(n)}
+		c := &verifC07swCirc{n: n, ch: r.Intn(2), inCh: r.Intn(2)}
+		c.in = CircuitKey{ChanID: x.ins[c.inCh].scid, HtlcID: uint64(n)}
 		copy(c.pre[:], r.Bytes(32))
 		c.hash = sha256.Sum256(c.pre[:])
 		x.circs = append(x.circs, c)
@@ -1302,7 +1751,9 @@ func (x *verifC07swRun) runCase(i int) {
 	if err := s.Start(); err != nil {
 		x.t.Fatalf("verifC07sw: Start on a fresh DB: %v", err)
 	}
-	x.opInUp()
+	for i := range x.ins {
+		x.opInUp(i)
+	}
 	for ch := range x.outs {
 		if r.Chance(7, 8) {
 			x.opOutUp(ch)
@@ -1310,19 +1761,24 @@ func (x *verifC07swRun) runCase(i int) {
 	}
 
 	for k := 0; k < nOps && !x.bad && !x.aborted && x.s != nil; k++ {
-		x.step()
+		cp := x.step()
 		vc.Count("sw_ops", 1)
 		if x.bad || x.aborted || x.s == nil {
+			x.capDrop(cp)
 			break
 		}
 		x.compare("after "+x.trace[len(x.trace)-1], false)
 		if x.midMismatch {
+			x.capDrop(cp)
+			x.probeReplay()
 			x.opRestart("midlife-mismatch")
 			if !x.bad {
 				x.abort("sw_midlife_mismatch_not_durable", "restart image agrees")
 			}
 			break
 		}
+		// Crash points of the operation: a fresh switch on every image.
+		x.capJudge(cp)
 	}
 	// Final sweep: whatever is still awaiting delivery has to come out
 	// once the incoming link is there, also after one more restart.
@@ -1331,15 +1787,27 @@ func (x *verifC07swRun) runCase(i int) {
 			if !r.Chance(1, 2) {
 				break
 			}
+			cp := x.capBegin("restart")
 			x.opRestart("final")
-			if x.bad || x.s == nil {
+			x.capEnd(cp)
+			if x.bad || x.aborted || x.s == nil {
+				x.capDrop(cp)
+				break
+			}
+			x.capJudge(cp)
+			if x.bad {
 				break
 			}
 		}
-		if !x.inOn {
-			x.opInUp()
+		for i, in := range x.ins {
+			if in.status != 0 {
+				continue
+			}
+			if !in.on {
+				x.opInUp(i)
+			}
+			x.opInRecv(i)
 		}
-		x.opInRecv()
 	}
 	if x.s != nil {
 		x.checkHanded()
@@ -1361,6 +1829,7 @@ func (x *verifC07swRun) runCase(i int) {
 }
 
 var _ kvdb.Backend = (*verifC07DB)(nil)
+var _ kvdb.Backend = (*verifC07swDB)(nil)
 
 func TestVerifC07Switch(t *testing.T) {
 	vc := verifStart(t, "C07", "switch")
